@@ -46,6 +46,7 @@ PROFILE_FILTER = "!INTEGER.RAND,!FLOAT.RAND,!BOOLEAN.RAND,!NAME.RAND,!CODE.RAND,
 PROPS = {
     "C04": {
         "scenarios": lambda tier, q: [
+            {"name": "registry", "args": ["__PID__"]},
             {"name": "exec", "args": [exact(q("scope C04")), "600" if tier == "quick" else "6000"]},
             {"name": "scalargrid", "args": [exact(q("scope C04"))]},
         ],
@@ -55,6 +56,7 @@ PROPS = {
     },
     "C05": {
         "scenarios": lambda tier, q: [
+            {"name": "registry", "args": ["__PID__"]},
             {"name": "exec", "args": [exact(q("scope C05")), "400" if tier == "quick" else "4000"]},
             {"name": "stkgrid", "args": []},
         ],
@@ -64,6 +66,7 @@ PROPS = {
     },
     "C17": {
         "scenarios": lambda tier, q: [
+            {"name": "registry", "args": ["__PID__"]},
             {"name": "buf", "args": []},
             {"name": "buf-exh", "args": []},
             {"name": "exec", "args": ["INPUT.,OUTPUT.", "600" if tier == "quick" else "6000"]},
@@ -75,6 +78,7 @@ PROPS = {
     },
     "C02": {
         "scenarios": lambda tier, q: [
+            {"name": "registry", "args": ["__PID__"]},
             {"name": "run", "args": []},
         ],
         "signature": lambda req: "run " + (req.split(" ) ")[1].split(" ")[0] if " ) " in req else "?")[:20],
@@ -83,6 +87,7 @@ PROPS = {
     },
     "C06": {
         "scenarios": lambda tier, q: [
+            {"name": "registry", "args": ["__PID__"]},
             {"name": "loops", "args": []},
             {"name": "exec", "args": [exact(q("scope C06")), "400" if tier == "quick" else "4000"]},
             {"name": "steps", "args": ["EXEC.,CODE.,INDEX.,INTVECTOR.LOOP,!clean"]},
@@ -93,6 +98,7 @@ PROPS = {
     },
     "C07": {
         "scenarios": lambda tier, q: [
+            {"name": "registry", "args": ["__PID__"]},
             {"name": "steps", "args": ["*.DEFINE,NAME.QUOTE,CODE.DEFINITION,NAME.DUP,CODE.QUOTE,!clean"]},
             {"name": "exec", "args": [exact(q("scope C07")), "400" if tier == "quick" else "4000"]},
         ],
@@ -102,6 +108,7 @@ PROPS = {
     },
     "C08": {
         "scenarios": lambda tier, q: [
+            {"name": "registry", "args": ["__PID__"]},
             {"name": "codeops", "args": [exact(q("scope C08"))]},
             {"name": "exec", "args": [exact(q("scope C08")), "150" if tier == "quick" else "1500"]},
         ],
@@ -111,6 +118,7 @@ PROPS = {
     },
     "C03": {
         "scenarios": lambda tier, q: [
+            {"name": "registry", "args": ["__PID__"]},
             {"name": "parse", "args": []},
         ],
         "signature": lambda req: "parse",
@@ -119,6 +127,7 @@ PROPS = {
     },
     "C11": {
         "scenarios": lambda tier, q: [
+            {"name": "registry", "args": ["__PID__"]},
             {"name": "roundtrip", "args": []},
         ],
         "signature": lambda req: "roundtrip",
@@ -127,6 +136,7 @@ PROPS = {
     },
     "C09": {
         "scenarios": lambda tier, q: [
+            {"name": "registry", "args": ["__PID__"]},
             {"name": "vecgrid", "args": []},
             {"name": "exec", "args": [exact(q("scope C09")), "300" if tier == "quick" else "3000"]},
         ],
@@ -137,6 +147,7 @@ PROPS = {
     },
     "C20": {
         "scenarios": lambda tier, q: [
+            {"name": "registry", "args": ["__PID__"]},
             {"name": "topo", "args": []},
             {"name": "exec", "args": ["LIST.NEIGHBOR", "500" if tier == "quick" else "5000"]},
         ],
@@ -147,6 +158,7 @@ PROPS = {
     },
     "C19": {
         "scenarios": lambda tier, q: [
+            {"name": "registry", "args": ["__PID__"]},
             {"name": "listops", "args": []},
             {"name": "steps", "args": ["LIST.,*.ID,INTVECTOR.FROMINT,!clean"]},
         ],
@@ -156,6 +168,7 @@ PROPS = {
     },
     "C18": {
         "scenarios": lambda tier, q: [
+            {"name": "registry", "args": ["__PID__"]},
             {"name": "graph", "args": []},
             {"name": "graph-exh", "args": []},
             {"name": "exec", "args": ["GRAPH.", "400" if tier == "quick" else "4000"]},
@@ -167,6 +180,7 @@ PROPS = {
     },
     "C12": {
         "scenarios": lambda tier, q: [
+            {"name": "registry", "args": ["__PID__"]},
             {"name": "gencode", "args": []},
             {"name": "exec", "args": ["=CODE.RAND", "1500" if tier == "quick" else "15000"]},
         ],
@@ -176,6 +190,7 @@ PROPS = {
     },
     "C13": {
         "scenarios": lambda tier, q: [
+            {"name": "registry", "args": ["__PID__"]},
             {"name": "genvals", "args": []},
             {"name": "exec", "args": ["=INTEGER.RAND,=FLOAT.RAND,=BOOLVECTOR.RAND,=INTVECTOR.RAND,=FLOATVECTOR.RAND,=NAME.RANDBOUNDNAME,=NAME.RAND,=BOOLEAN.RAND", "500" if tier == "quick" else "5000"]},
         ],
@@ -185,6 +200,7 @@ PROPS = {
     },
     "C14": {
         "scenarios": lambda tier, q: [
+            {"name": "registry", "args": ["__PID__"]},
             {"name": "det", "args": []},
             {"name": "cli", "args": []},
             {"name": "srcscan", "args": []},
@@ -199,6 +215,7 @@ PROPS = {
     },
     "C15": {
         "scenarios": lambda tier, q: [
+            {"name": "registry", "args": ["__PID__"]},
             {"name": "growth", "args": []},
             {"name": "exec", "args": ["*", "100" if tier == "quick" else "1000"]},
         ],
@@ -208,6 +225,7 @@ PROPS = {
     },
     "C10": {
         "scenarios": lambda tier, q: [
+            {"name": "registry", "args": ["__PID__"]},
             {"name": "starve", "args": []},
             {"name": "exec", "args": ["*", "60" if tier == "quick" else "600"]},
         ],
@@ -218,6 +236,7 @@ PROPS = {
     },
     "C01": {
         "scenarios": lambda tier, q: [
+            {"name": "registry", "args": ["__PID__"]},
             {"name": "exec", "args": ["*"]},
             {"name": "steps", "args": ["*"]},
             {"name": "run", "args": []},
@@ -231,6 +250,7 @@ PROPS = {
     },
     "C16": {
         "scenarios": lambda tier, q: [
+            {"name": "registry", "args": ["__PID__"]},
             {"name": "stack", "args": []},
             {"name": "stack-exh", "args": []},
         ],
